@@ -19,6 +19,21 @@ open TapkeeVerif TapkeeVerif.Spe
 theorem spe_indices_perm_local : LocalPermClaim Gen.spePartnersInPlace :=
   spe_indices_perm_local_current.mpr rfl
 
+/-- … and what the pairs of the local strategy ARE on the working tree (stated on the generated constant): pair `j` is
+    (`indices[j]`, one of the first `k` neighbours of it), both `< N`, no self pair, first members pairwise distinct;
+    reaching `.ok` means no vector was indexed out of range. -/
+theorem spe_local_pairs :
+    ∀ (nb : List (List Nat)) (N k nupReq : Nat) (shuffle : Nat → List Nat) (fv : Nat → Int),
+      ValidNeighbors nb N k → (∀ t, (shuffle t).Perm (List.range N)) → (∀ c, 0 ≤ fv c ∧ fv c < k) →
+      ∀ t, ∃ idx ps, stepAt Gen.spePartnersInPlace false nb k N (clampUpdates N nupReq) shuffle fv t = .ok (idx, ps) ∧
+        idx.Perm (List.range N) ∧ ps.length = clampUpdates N nupReq ∧
+        (∀ j, j < clampUpdates N nupReq → ∃ b, ps[j]? = some (ind1 idx j, b) ∧
+          b ∈ (nb.getD (ind1 idx j) []).take k ∧ ind1 idx j < N ∧ b < N ∧ ind1 idx j ≠ b) ∧
+        (∀ j j', j < clampUpdates N nupReq → j' < clampUpdates N nupReq → j ≠ j' → ind1 idx j ≠ ind1 idx j') := by
+  have h : Gen.spePartnersInPlace = false := rfl
+  rw [h]
+  exact spe_indices_perm_local_separate.2
+
 /-- Global strategy of the working tree (`Gen.speAlphaZeroGuard`, regenerated from the assignment to `alpha` in
     `spe.hpp`): the normaliser is defined for EVERY distance callback — coinciding samples (maximum distance 0) included
     — and in the local strategy it is the constant 1.  Compiles only on the repaired shape (F-SPE-ZERODIST, c1f47d5): a
